@@ -1244,6 +1244,18 @@ protected:
         }
       }
 
+      // RFC 9110 §15.3.5 / §15.4.5, RFC 9112 §6.3: a 204 or 304 response never
+      // carries a body, whatever the request method. A handler that only selects
+      // the status (res.status = 204) would otherwise inherit the pre-filled 404
+      // content ("Not Found", Content-Length: 9) and put 9 stray octets on the
+      // wire, which the peer reads as the start of the next response on a
+      // persistent connection. Same reconciliation as the HEAD case above.
+      if (res.status == 204 || res.status == 304)
+      {
+        res.body.clear();
+        res.headers.erase("Content-Length");
+      }
+
       // Determine connection behavior
       bool shouldCloseConnection = false;
       std::string connectionHeader = "keep-alive";
